@@ -69,11 +69,23 @@ def run(ctx):
     elif prof == 1:
         base = {"forall_pre": True}
         ctx.profile = "forall-preconditions"
+    from . import fixtures
+    use_fixture = cfg.draw(100 if ctx.tier == "quick" else 25) == 0
     feat = C.draw_features(ctx, base)
-    W = C.World(ctx, feat)
-    ctx.W = W
     ops = ctx.s("ops")
     allow = cfg.chance(1, 2)
+    if use_fixture:
+        fx = fixtures.load_single(cfg.draw(len(fixtures.SINGLE_TRIPLES)))
+        if "unsupported" in fx:
+            ctx.probes["fixture_unsupported"] += 1
+            raise Skip()
+        ctx.profile = "shipped-plan"
+        ctx.probes["fixture_plan"] += 1
+        W = C.FixtureWorld(fx)
+        ctx.W = W
+        return run_fixture(ctx, W, fx, allow, cfg, ops)
+    W = C.World(ctx, feat)
+    ctx.W = W
     n = cfg.draw(11)
     p_invalid = [0, 1, 2, 4][cfg.draw(4)]  # out of 8
     # ---- build the plan with the reference
@@ -109,7 +121,46 @@ def run(ctx):
                 plan.append((c, "free", None))
     calls = [c for c, _, _ in plan]
     lines = [render_line(c, ops) for c in calls]
-    ctx.log("plan", W.dom_text_plain, sorted(S[0]), sorted(S[1].items()), tuple(lines), allow)
+    execute_plan(ctx, W, S, plan, lines, allow, cfg, ops)
+
+
+def run_fixture(ctx, W, fx, allow, cfg, ops):
+    """a shipped planner plan (optionally with a foreign step spliced in), classified step by step by the reference"""
+    from . import fixtures
+    lines = list(fx["plan_lines"])[: 5 + cfg.draw(60)]
+    if cfg.chance(1, 2) and len(lines) >= 2:
+        # splice a step of the same plan into another position: usually inapplicable there
+        src = lines[ops.draw(len(lines))]
+        lines.insert(ops.draw(len(lines) + 1), src)
+    S = interp.init_state(W.P)
+    cur = S
+    plan = []
+    for l in lines:
+        a, args = fixtures.parse_plan_line(l)
+        c = (a, args)
+        if cur is None:
+            plan.append((c, "free", None))
+            continue
+        try:
+            app = interp.applicable(cur, W.action(a), args, W.D, W.objs)
+            nxt = interp.successor(cur, W.action(a), args, W.D, W.objs)[0] if app else None
+        except (interp.Inconsistent, interp.Undefined):
+            plan.append((c, "free", None))
+            cur = None
+            continue
+        if app:
+            plan.append((c, "valid", nxt))
+            cur = nxt
+        else:
+            plan.append((c, "invalid", None))
+            if allow:
+                cur = None
+    execute_plan(ctx, W, S, plan, lines, allow, cfg, ops)
+
+
+def execute_plan(ctx, W, S, plan, lines, allow, cfg, ops):
+    calls = [c for c, _, _ in plan]
+    ctx.log("plan", W.dom_text_plain, len(S[0]), sorted(S[0])[:40], sorted(S[1].items())[:40], tuple(lines), allow)
     ctx.sample = {"plan": lines, "kinds": [k for _, k, _ in plan], "allow_invalid_actions": allow,
                   "init_facts": sorted(S[0])[:10]}
     ctx.nontrivial = any(k == "invalid" for _, k, _ in plan) or (
@@ -124,7 +175,7 @@ def run(ctx):
     ctx.probes[f"plan_len_{min(len(plan), 3)}{'+' if len(plan) >= 3 else ''}"] += 1
 
     try:
-        d, p, s0 = C.lib_world(ctx, W, S)
+        d, p, s0 = C.lib_world(ctx, W, S if not isinstance(W, C.FixtureWorld) else None)
     except Exception as e:
         raise Violation("C04/generated-input-rejected", "DomainParser/ProblemParser", f"{type(e).__name__}: {e}")
     exporter = L().TrajectoryExporter(d, allow_invalid_actions=allow)
@@ -208,6 +259,8 @@ def pre_features(act):
         feats["or_pre"] = True
     if has(act["pre"], "forall"):
         feats["forall_pre"] = True
+    if act.get("pre_single_literal"):
+        feats["single_literal_pre"] = True
     return feats
 
 
